@@ -71,6 +71,21 @@ def _gset(fr, name, v):
     fr.locs[name] = v
 
 
+def _validate_objects(it, args, kwargs, fr, node):
+    """self.validate(...): True, or False with the ghost `objected` set (the file names an api process which is not
+    defined, ...), or an exception like any parser code"""
+    ctx = it.ctx
+    which = ctx.fresh('validate!outcome')
+    ctx.assume(z3.And(which >= 0, which <= 2))
+    ctx.inputs['validate (0 fine, 1 objects, 2 raises)'] = ('int', which)
+    if ctx.branch(which == 2):
+        raise Raise(VExc(ValueError, ('validate failed',)))
+    if ctx.branch(which == 1):
+        _gset(fr, 'objected', True)
+        return False
+    return True
+
+
 def _validate(it, args, kwargs, fr, node):
     v = it.ctx.fresh('validate!ok', B)
     it.ctx.inputs['validate returns'] = ('bool', v)
@@ -88,6 +103,7 @@ SELF = obj(
     _text=bool_(),
     parser=obj(None, line=const(()), number=const(0)),
     process=obj(None, processes=_ident_obj('parsed processes')),
+    neighbor=obj(None, neighbors=_ident_obj('parsed neighbors (not yet committed)')),
     error=obj(None),
     scope=obj(None),
 )
@@ -97,7 +113,7 @@ contract(
     'Configuration._reload',
     props=('C17',),
     params={'self': SELF},
-    ghost={'committed': const(False)},
+    ghost={'committed': const(False), 'objected': const(False)},
     requires=['self.neighbors'],  # a configuration is loaded: there is something to lose
     callees={
         'self.parser.set_text': _may_fail('set_text'),
@@ -110,7 +126,8 @@ contract(
         'self.scope.location': returns_fresh('str', label='loc'),
         'self._commit_reload': _commit,
         'self._link': noop,
-        'self.validate': _validate,
+        # validate() looks at what is about to be committed: it answers True / False, or raises like any parser code
+        'self.validate': _validate_objects,
         'self._cleanup': noop,  # clears the parser sections and the scope: nothing this contract speaks about
     },
     # whatever goes wrong inside is reported by reload(); here it may escape
@@ -121,6 +138,8 @@ contract(
         # ... and the API processes (the reactor stops every process missing from this table right after a reload)
         'implies(result is not True, self.processes is old(self.processes))',
         'implies(result is True, committed)',
+        # a file validate() objects to is a failed reload: not committed, not answered True (its verdict was dropped)
+        'implies(objected, result is not True and not committed)',
     ],
     final=[
         # ... and when an exception interrupts it before the commit, the neighbors are either back in place or
@@ -129,6 +148,7 @@ contract(
     ],
     canaries=[
         ('            self._rollback_reload()\n            line_str', '            line_str'),
+        ('processes) is not True:\n            self._rollback_reload()\n            return False', 'processes) is not True:\n            pass'),
         ('            if not os.path.isfile(target):\n                self._rollback_reload()', '            if not os.path.isfile(target):\n                pass'),
     ],
 )
@@ -185,8 +205,8 @@ contract(
         # leaves the neighbors exactly as they were; and a committed one is never undone
         'implies(not committed, self.neighbors is old(self.neighbors))',
     ],
-    notes=['assumed: _link() and validate() do not raise after _commit_reload() (an exception there could not be reproduced natively; with the tested input validate() records its error and _reload() returns True)'],
-    canaries=[('        except Exception as exc:\n            self._abort_reload()', '        except Exception as exc:\n            pass'), ('        if self._previous_neighbors:\n            self._rollback_reload()', '        self._rollback_reload()')],
+    notes=['assumed: _link() does not raise after _commit_reload(); validate() now runs BEFORE the commit (fix of its dropped verdict) and is modelled as answering True / False or raising'],
+    canaries=[('        except Exception as exc:\n            self._abort_reload()', '        except Exception as exc:\n            pass')],
 )
 REG.mark_inline(CF, 'Configuration._abort_reload')
 
